@@ -108,12 +108,6 @@ def marked_text(text, pos):
     return '\n'.join(lines)
 
 
-def valid_positions(text):
-    lines = editor_lines(text)
-    n = len(lines)
-    return lines, n
-
-
 # ---------------------------------------------------------------------------------------------
 # result shape checks
 # ---------------------------------------------------------------------------------------------
@@ -1059,6 +1053,8 @@ class Dumper(object):
             locs = [(n, names[n]) for n in sorted(obj.locals) if n in names]
             term = 'NClass [%s] %s' % ('; '.join(str(self.node(b)) for b in obj._bases), self.table(locs))
         elif t is N.ArgumentName:
+            if getattr(obj.func, 'decorator_list', None):
+                raise Unsupported('parameter of a decorated function')
             if obj.idx == [0] and isinstance(obj.func.parent, S.ClassScope):
                 term = 'NArg (Some %d)' % self.node(obj.func.parent)
             else:
@@ -1423,12 +1419,6 @@ def _shape_cases(ctx, samples):
     os.makedirs(root, exist_ok=True)
     recorded = []
     orig = evaluator.EvalCtx.declarations
-
-    def rec(self, node, result=None):
-        res = orig(self, node, result if result is not None else [])
-        if getattr(self, '_c08_top', True):
-            recorded.append(res)
-        return res
 
     codes = {'E01': 0, 'E02': 1, 'E42': 2, 'W01': 3, 'W02': 4}
     files_ids = {}
